@@ -36,6 +36,9 @@ type runner struct {
 	cfg  map[string]any
 	kind string
 	filt bool
+	sf   bool
+	auto bool
+	winAtRead []int // offsets retained in history when it was read
 
 	mu         sync.Mutex
 	deliveries map[int]delivery
@@ -90,8 +93,14 @@ func newWorker(histSize, recLimit int) (*worker, error) {
 	}
 	gb.AfterHistory = func(ch string, _ centrifuge.HistoryOptions, _ []*centrifuge.Publication, sp centrifuge.StreamPosition) {
 		if r := w.runner(ch); r != nil && r.g3 != nil {
+			// what the stream retained at this moment (independent full read; the subscriber is parked, nothing moves)
+			all, _, _ := w.gb.Inner.History(ch, centrifuge.HistoryOptions{Filter: centrifuge.HistoryFilter{Limit: -1}})
 			r.mu.Lock()
 			r.topAtRead = int(sp.Offset)
+			r.winAtRead = r.winAtRead[:0]
+			for _, p := range all {
+				r.winAtRead = append(r.winAtRead, int(p.Offset))
+			}
 			r.mu.Unlock()
 			r.g3.Arrive(gateTimeout)
 		}
@@ -116,8 +125,15 @@ func newWorker(histSize, recLimit int) (*worker, error) {
 				opts.EnablePositioning = true
 			case "rec":
 				opts.EnableRecovery = true
+			case "cache":
+				opts.EnableRecovery = true
+				opts.RecoveryMode = centrifuge.RecoveryModeCache
+				opts.AutoCacheRecover = r.auto
 			}
 			opts.AllowTagsFilter = true
+			if r.filt && r.sf {
+				opts.ServerTagsFilter = &centrifuge.FilterNode{Key: "t", Cmp: "eq", Val: "keep"}
+			}
 		}
 		cb(centrifuge.SubscribeReply{Options: opts}, nil)
 	}
@@ -226,7 +242,8 @@ type verdict struct{ prop, sig, what string }
 
 func (r *runner) monitors(out []frame) []verdict {
 	var vs []verdict
-	positioned := r.kind == "pos" || r.kind == "rec"
+	positioned := r.kind == "pos" || r.kind == "rec" || r.kind == "cache"
+	stream := r.kind == "pos" || r.kind == "rec"
 	replyIdx, endIdx := -1, -1
 	for i, f := range out {
 		if f.T == "reply" && replyIdx < 0 {
@@ -256,7 +273,7 @@ func (r *runner) monitors(out []frame) []verdict {
 				break
 			}
 		}
-		if len(seen) > 0 {
+		if len(seen) > 0 && stream {
 			have := map[int]bool{}
 			for _, o := range seen {
 				have[o] = true
@@ -306,10 +323,34 @@ func (r *runner) monitors(out []frame) []verdict {
 				vs = append(vs, verdict{"C16", "recovery-filtered", fmt.Sprintf("recovered publication offset %d is excluded by the tags filter", o)})
 			}
 		}
-		if !rep.Recovered && len(rep.Pubs) > 0 {
+		if r.kind == "cache" {
+			if len(rep.Pubs) > 1 {
+				vs = append(vs, verdict{"C03", "more-than-one", fmt.Sprintf("cache recovery delivered %v", rep.Pubs)})
+			}
+			newestVisible, newest := 0, 0
+			for _, o := range r.winAtRead {
+				if o > newest {
+					newest = o
+				}
+				if !r.filtered(o) && o > newestVisible {
+					newestVisible = o
+				}
+			}
+			for _, o := range rep.Pubs {
+				if o < newestVisible {
+					vs = append(vs, verdict{"C03", "not-newest-visible", fmt.Sprintf("cache recovery delivered offset %d while the newest visible publication in history is %d", o, newestVisible)})
+				}
+			}
+			newestPresent := len(r.winAtRead) > 0 && newest == r.topAtRead
+			holdsCurrent := sinceOff > 0 && sinceOff == r.topAtRead && vh.Str(since["ep"]) == "e1"
+			if rep.Recovered != (newestPresent || holdsCurrent) {
+				vs = append(vs, verdict{"C03", fmt.Sprintf("recovered-flag:%v", rep.Recovered), fmt.Sprintf("cache recovery reported recovered=%v; newest publication present in history=%v (window %v, top %d), client holds current position=%v", rep.Recovered, newestPresent, r.winAtRead, r.topAtRead, holdsCurrent)})
+			}
+		}
+		if r.kind != "cache" && !rep.Recovered && len(rep.Pubs) > 0 {
 			vs = append(vs, verdict{"C02", "unrecovered-with-pubs", fmt.Sprintf("recovered=false with publications %v", rep.Pubs)})
 		}
-		if rep.Recovered {
+		if r.kind != "cache" && rep.Recovered {
 			ep := vh.Str(since["ep"])
 			if r.kind != "rec" || (ep != "" && ep != "e1") {
 				vs = append(vs, verdict{"C02", "recovered-wrong-epoch", fmt.Sprintf("recovered=true for kind %s epoch %q", r.kind, ep)})
@@ -354,9 +395,9 @@ func tagsFilter() *protocol.FilterNode {
 
 func (w *worker) run(bi int, beh []map[string]any, res *vh.Result) {
 	cfg := vh.Map(beh[0]["cfg"])
-	r := &runner{w: w, ch: fmt.Sprintf("ss%d_%d", vh.Seed(), bi), cfg: cfg, kind: vh.Str(cfg["kind"]), filt: vh.Bool(cfg["filt"]),
+	r := &runner{w: w, ch: fmt.Sprintf("ss%d_%d", vh.Seed(), bi), cfg: cfg, kind: vh.Str(cfg["kind"]), filt: vh.Bool(cfg["filt"]), sf: vh.Bool(cfg["sf"]), auto: vh.Bool(cfg["auto"]),
 		deliveries: map[int]delivery{}, g1: cl.NewGate()}
-	if r.kind == "pos" || r.kind == "rec" {
+	if r.kind == "pos" || r.kind == "rec" || r.kind == "cache" {
 		r.g2, r.g3 = cl.NewGate(), cl.NewGate()
 	}
 	w.runners.Store(r.ch, r)
@@ -448,10 +489,10 @@ func (w *worker) run(bi int, beh []map[string]any, res *vh.Result) {
 			id := conn.NextID()
 			r.subID = id
 			req := &protocol.SubscribeRequest{Channel: r.ch}
-			if r.filt {
+			if r.filt && !r.sf {
 				req.Tf = tagsFilter()
 			}
-			if r.kind == "rec" {
+			if r.kind == "rec" || (r.kind == "cache" && !r.auto) {
 				since := vh.Map(cfg["since"])
 				req.Recover = true
 				req.Offset = uint64(vh.Int(since["off"]))
